@@ -148,6 +148,24 @@ def loop_header_of(func, b):
     return cands[0]
 
 
+def enclosing_loop_stmt(func, b):
+    """Innermost loop statement (block with a for/while terminator) whose body lexically contains b, including
+    blocks that leave the loop (break / return), which are not part of the natural loop."""
+    doms = func.dominators()
+    best = None
+    for d in doms.get(b, set()):
+        t = func.blocks[d].get('term')
+        if not t or t.get('c') not in LOOP_TERMS or d == b:
+            continue
+        body_entry = func.blocks[d]['succ'][0] if func.blocks[d]['succ'] else None
+        if body_entry is None:
+            continue
+        if body_entry == b or body_entry in doms.get(b, set()):
+            if best is None or len(doms.get(d, ())) > len(doms.get(best, ())):
+                best = d
+    return best
+
+
 def arm_statements(func, start, stop, with_guards=True):
     """Sorted multiset of rendered effect statements of a region, each with its guard context."""
     blocks = region(func, start, stop)
